@@ -123,6 +123,7 @@ def _run_prog(ctx, prog, env, t_cur, misc):
             raise ValueError("unknown action %r" % (a,))
 
 _CLASSES = None
+_MISSING = object()
 def _classes():
     global _CLASSES
     if _CLASSES is not None: return _CLASSES
@@ -147,19 +148,20 @@ def _classes():
         ev["ret"] = {"roots": rr, "dat": rd, "misc": [[MISC_NAMES.index(k) if k in MISC_NAMES else -1, v] for k, v in (miscout or {}).items()]}
         return (env[NSLOT],) + tuple(ret) if with_mcfg_out else tuple(ret)
 
+    def initcall(self, miscout):
+        # what the programme passes for the interface's `miscout` parameter: None -> [], nothing at all -> [[-3, 0]]
+        got = [] if miscout is None else ([[-3, 0]] if miscout is _MISSING else [[-2, 0]])
+        self.ctx.trace.append({"tag": TAGS["initialize"], "t": 0, "tm": 0, "rep": None, "roots": [], "dat": [], "misc": got,
+                               "ret": {"roots": [], "dat": [], "misc": []}})
+        return tuple(self.result)
     class Init(InitializationOperator):
+        """gives miscout a default (so it also works when the argument is omitted; the omission is recorded)"""
         def __init__(self, ctx, result): self.ctx = ctx; self.result = result
-        def initialize(self, miscout=None, **kwargs):
-            self.ctx.trace.append({"tag": TAGS["initialize"], "t": 0, "tm": 0, "rep": None, "roots": [], "dat": [], "misc": [],
-                                   "ret": {"roots": [], "dat": [], "misc": []}})
-            return tuple(self.result)
+        def initialize(self, miscout=_MISSING, **kwargs): return initcall(self, miscout)
     class InitStrict(InitializationOperator):
         """follows the abstract signature literally: miscout is a required parameter"""
         def __init__(self, ctx, result): self.ctx = ctx; self.result = result
-        def initialize(self, miscout, **kwargs):
-            self.ctx.trace.append({"tag": TAGS["initialize"], "t": 0, "tm": 0, "rep": None, "roots": [], "dat": [], "misc": [],
-                                   "ret": {"roots": [], "dat": [], "misc": []}})
-            return tuple(self.result)
+        def initialize(self, miscout, **kwargs): return initcall(self, miscout)
     class PSel(ParentSelectionOperator):
         def __init__(self, ctx, prog): self.ctx = ctx; self.prog = prog
         def pselect(self, genome, geno, pheno, bval, gmod, t_cur, t_max, miscout, **kwargs):
@@ -372,7 +374,10 @@ def pred(case, out):
     last = None; mc = None; lastmisc = []
     for i, e in enumerate(tr):
         name = TAGNAME.get(e["tag"], "?")
-        if name == "initialize": continue
+        if name == "initialize":
+            if e["misc"] != []:
+                bad.append("call %d: initialize() was not handed miscout = None (interface parameter %s)" % (i, "omitted" if e["misc"] == [[-3, 0]] else "is not None"))
+            continue
         ids_here = set(e["roots"]) | {x[1] for d in e["dat"] for x in d}
         if name == "evaluate" and e["t"] == 0:
             if len(e["roots"]) != NSLOT or any(r < 0 for r in e["roots"]):
@@ -439,11 +444,7 @@ def pred(case, out):
     return seen_b[:8]
 
 def classify(case, out, clauses):
-    # narrow: an uninitialised programme whose initialisation operator follows the abstract signature literally
-    if case.get("init_strict") and _uninitialised(case) and isinstance(out, dict) and out.get("err") \
-            and out["err"]["type"] == "TypeError" and "miscout" in out["err"]["msg"] and not out["trace"]:
-        return "C20-initialize-miscout"
-    return None
+    return None            # no open finding: C20-initialize-miscout was repaired in /repo (b17284d4) and is re-executed as a fixed entry
 
 def nontrivial(case, out):
     if "exc" in out or out["err"] is not None: return False
@@ -557,6 +558,8 @@ def _systematic():
         c = _base(); c["start"] = [None] * NSLOT; c["init"][j] = None; out.append(c)
         c = _base(); c["start"] = [None] * NSLOT; c["init"][j] = None; c["calls"] = [[0, 1, 1], [1, 0, 0]]; out.append(c)
     c = _base(); c["init_strict"] = True; out.append(c)                         # initialised: initop never called
+    for st in ([None] * NSLOT, [0, None, 2, 3, 4]):                             # interface-conforming initop (required miscout)
+        c = _base(); c["init_strict"] = True; c["start"] = list(st); c["calls"] = [[2, 1, 1]]; out.append(c)
     c = _base(); c["start"] = [None] * NSLOT; c["calls"] = [[0, 0, 1], [2, 1, 1]]; out.append(c)   # initialised by the first call only
     for j in range(NSLOT):                      # each container separately: in-place leaf / dict mutation across replicates
         for act in (["app", j, 0, 9], ["set", j, 2, [5]], ["del", j, 1], ["appt", j, 1]):
